@@ -634,12 +634,15 @@ def gen(item, rng, tier):
     meta = {'thumb': 1, 'te': te, 'bo': bo, 'e': e_main, 'mode': mode, 'returns': rets, 'main_lo': G.CODE, 'main_hi': G.CODE + len(code), 'handlers': {k: list(v) for k, v in hinfo.items()},
             'firstcond': f, 'mask': mask, 'nzcv': nzcv, 'kind': kind, 'pos': pos, 'slots': slots, 'slot_addrs': addrs, 'special': special,
             'it_addr': G.CODE + pro_len, 'epi_addr': (a + (2 if slots[-1]['t'] == 'b' else 0) + 2) if epilogue else None, 'pro_len': pro_len}
-    if any(s_.get('name') == 'wfe' for s_ in slots):
-        events.append({'tick': len(words) + 20 + rng.randrange(0, 8), 'core': 0, 'kind': 'sev'})
+    for i_, s_ in enumerate([s_ for s_ in slots if s_.get('name') == 'wfe']):
+        # (one event per waiting slot: each wake-up consumes the Event Register)
+        events.append({'tick': len(words) + 20 + 12 * i_ + rng.randrange(0, 8), 'core': 0, 'kind': 'sev'})
     if rng.random() < 0.1:
         events.append({'tick': rng.randrange(0, len(words) + 4), 'core': 0, 'kind': 'regswap'})          # register file replaced by a deep copy of itself
         events.sort(key=lambda e: e['tick'])
-    return {'scenario': 'it_block', 'cores': [core], 'meta': meta, 'events': events, 'max_ticks': len(words) + 3 * (hl + 10) + 40}
+    # (a block that waits in a WFE resumes when the SEV behind the program arrives - the clock jumps there - and still needs its handlers' ticks afterwards)
+    return {'scenario': 'it_block', 'cores': [core], 'meta': meta, 'events': events,
+            'max_ticks': len(words) + 3 * (hl + 10) + 40 + (60 if any(s_.get('name') == 'wfe' for s_ in slots) else 0)}
 
 
 # ------------------------------------------------------------------ execution
